@@ -225,7 +225,9 @@ class Session(object):
                     'Deleting the existing session %r before '
                     'regeneration.' % self.id,
                     'TOOLS.SESSIONS')
-            self.delete()
+            # Only the stored copy goes away: the data held by this
+            # request moves to the new id.
+            self._delete()
 
         old_session_was_locked = self.locked
         if old_session_was_locked:
@@ -315,6 +317,10 @@ class Session(object):
     def delete(self):
         """Delete stored session data."""
         self._delete()
+        # Forget the copy held by this request as well; otherwise the
+        # save() at the end of the request writes the deleted data back.
+        self._data = {}
+        self.loaded = False
         if self.debug:
             cherrypy.log('Deleted session %s.' % self.id,
                          'TOOLS.SESSIONS')
